@@ -270,6 +270,7 @@ def tokEvent (raw : Str) (pos : Pos) (t : Tok) : Event :=
   | .open_ n _ _ => tagEvent false n t.render (atLineStart raw pos) (look raw pos t.render)
   | .close n => .end_ (lower n) t.render (look raw pos t.render)
   | .selfClose n _ _ => tagEvent true n t.render (atLineStart raw pos) (look raw pos t.render)
+  | .bare c => .data [c]
 
 theorem render_open (c : Char) (r : Str) (as : List Attr) (tr : Str) :
     (Tok.open_ (c :: r) as tr).render = tagText false c r as tr := by
@@ -281,8 +282,29 @@ theorem render_selfClose (c : Char) (r : Str) (as : List Attr) (tr : Str) :
 
 theorem cdataTags_eq : cdataTags = cdataNames := rfl
 
+/-- a bare `<` or `&` followed by a character that keeps it bare: one `handle_data` call -/
+theorem go1_bare (raw : Str) (f : Nat) (c d : Char) (r : Str) (pos : Pos) (ex : ExSt) (hc : c = '<' ∨ c = '&')
+    (hd : bareFollow c d = true) :
+    go1 raw (f + 1) (c :: d :: r) pos ex =
+      consEvs [.data [c]] (go1 raw f (d :: r) (updatePos pos [c]) (step ex (.data [c]))) := by
+  rcases hc with rfl | rfl
+  · simp only [bareFollow, if_true, Bool.and_eq_true, Bool.not_eq_true', bne_iff_ne, ne_eq] at hd
+    obtain ⟨⟨⟨h1, h2⟩, h3⟩, h4⟩ := hd
+    have hp : parseLt ('<' :: d :: r) (atLineStart raw pos) (look raw pos) ex.intail = .ok 1 [.data ['<']] := by
+      simp [parseLt, h1, h2, h3, h4, cmtOpen]
+    have := go1_lt raw f ['<'] (d :: r) pos ex [.data ['<']] d r rfl hp rfl
+    simpa [runFrom] using this
+  · have hne : ('&' = '<') = False := by decide
+    simp only [bareFollow, hne, if_false, Bool.and_eq_true, Bool.not_eq_true', bne_iff_ne, ne_eq] at hd
+    obtain ⟨h1, h2⟩ := hd
+    rw [go1_succ_cons]
+    simp only [show ('&' != '<' && '&' != '&') = false by decide, Bool.false_eq_true, if_false, hne,
+      startsWith_cons_cons, show decide (d = '#') = false by simpa using h2, Bool.false_and, entityrefAt, h1,
+      List.isEmpty_cons]
+
 theorem go1_tok (raw : Str) (f : Nat) (t : Tok) (k : Str) (pos : Pos) (ex : ExSt) (ht : t.ok = true)
-    (hk : isText t = true → Delim k) :
+    (hk : isText t = true → Delim k)
+    (hb : ∀ c, t = .bare c → ∃ d r, k = d :: r ∧ bareFollow c d = true := by intro c hc; cases hc) :
     go1 raw (f + 1) (t.render ++ k) pos ex =
       consEvs [tokEvent raw pos t] (go1 raw f k (updatePos pos t.render) (step ex (tokEvent raw pos t))) := by
   cases t with
@@ -354,6 +376,10 @@ theorem go1_tok (raw : Str) (f : Nat) (t : Tok) (k : Str) (pos : Pos) (ex : ExSt
       rw [this, hp]
       simp [tokEvent, render_selfClose]
     · simp [tokEvent, tagEvent, cdataStuck]
+  | bare c =>
+    obtain ⟨d, r, rfl, hd⟩ := hb c rfl
+    have hc : c = '<' ∨ c = '&' := by simpa [Tok.ok] using ht
+    simpa [Tok.render, tokEvent] using go1_bare raw f c d r pos ex hc hd
 
 /-! ### token sequences -/
 
@@ -368,19 +394,31 @@ theorem consEvs_nil (x : Option R1) : consEvs [] x = x := by
 theorem consEvs_consEvs (a b : List Event) (x : Option R1) : consEvs a (consEvs b x) = consEvs (a ++ b) x := by
   cases x <;> simp [consEvs]
 
-theorem render_head_nontext (t : Tok) (h : isText t = false) : ∃ c r, t.render = c :: r ∧ (c = '<' ∨ c = '&') := by
+theorem render_head_nontext (t : Tok) (ht : t.ok = true) (h : isText t = false) :
+    ∃ c r, t.render = c :: r ∧ (c = '<' ∨ c = '&') := by
   cases t <;> simp [isText] at h <;> simp [Tok.render]
+  simpa [Tok.ok] using ht
+
+theorem toksOk_head {u : Tok} {r : List Tok} (h : toksOk (u :: r) = true) : u.ok = true := by
+  cases r with
+  | nil => simp only [toksOk, Bool.and_eq_true] at h; exact h.1
+  | cons v r' => simp only [toksOk, Bool.and_eq_true] at h; exact h.1.1.1
 
 theorem toksOk_cons {t : Tok} {ts : List Tok} (h : toksOk (t :: ts) = true) :
-    t.ok = true ∧ toksOk ts = true ∧ (isText t = true → ∀ u r, ts = u :: r → isText u = false) := by
+    t.ok = true ∧ toksOk ts = true ∧ (isText t = true → ∀ u r, ts = u :: r → isText u = false) ∧
+    (∀ c, t = .bare c → ∃ u r, ts = u :: r ∧ followOk t u = true) := by
   cases ts with
-  | nil => simp [toksOk] at h ⊢; exact h
+  | nil =>
+    simp only [toksOk, Bool.and_eq_true, Bool.not_eq_true'] at h
+    refine ⟨h.1, rfl, ?_, ?_⟩
+    · intro _ u r he; cases he
+    · intro c hc; rw [hc] at h; simp [isBare] at h
   | cons u r =>
     simp only [toksOk, Bool.and_eq_true, Bool.not_eq_true', Bool.and_eq_false_iff] at h
-    refine ⟨h.1.1, h.2, ?_⟩
+    refine ⟨h.1.1.1, h.2, ?_, fun c _ => ⟨u, r, rfl, h.1.2⟩⟩
     intro ht u' r' he
     cases he
-    rcases h.1.2 with h' | h'
+    rcases h.1.1.2 with h' | h'
     · rw [ht] at h'; cases h'
     · exact h'
 
@@ -394,17 +432,27 @@ theorem go1_toks (raw : Str) : ∀ (ts : List Tok) (pre k : Str) (f : Nat) (ex :
   | nil => intro pre k f ex _ _; simp [renderToks, toksEvents, consEvs_nil, runFrom]
   | cons t ts ih =>
     intro pre k f ex hok hk
-    obtain ⟨ht, hts, hadj⟩ := toksOk_cons hok
+    obtain ⟨ht, hts, hadj, hfol⟩ := toksOk_cons hok
     have hk' : isText t = true → Delim (renderToks ts ++ k) := by
       intro htx
       cases ts with
       | nil => simpa [renderToks] using hk
       | cons u r =>
-        obtain ⟨c, r', hr, hc⟩ := render_head_nontext u (hadj htx u r rfl)
+        obtain ⟨c, r', hr, hc⟩ := render_head_nontext u (toksOk_head hts) (hadj htx u r rfl)
         intro e he
         simp only [renderToks, hr, List.cons_append, List.head?_cons, Option.some.injEq] at he
         subst he; exact hc
-    have hstep := go1_tok raw (f + ts.length) t (renderToks ts ++ k) (posOf pre) ex ht hk'
+    have hb' : ∀ c, t = .bare c → ∃ d r, renderToks ts ++ k = d :: r ∧ bareFollow c d = true := by
+      intro c hc
+      obtain ⟨u, r, hts', hfo⟩ := hfol c hc
+      subst hts'; subst hc
+      simp only [followOk] at hfo
+      cases hu : u.render with
+      | nil => rw [hu] at hfo; simp at hfo
+      | cons d r' =>
+        rw [hu] at hfo
+        exact ⟨d, r' ++ (renderToks r ++ k), by simp [renderToks, hu], by simpa using hfo⟩
+    have hstep := go1_tok raw (f + ts.length) t (renderToks ts ++ k) (posOf pre) ex ht hk' hb'
     simp only [renderToks, List.length_cons, List.append_assoc]
     rw [show f + (ts.length + 1) = f + ts.length + 1 by omega, hstep, posOf_append,
       ih (pre ++ t.render) k f _ hts hk, consEvs_consEvs]
@@ -450,6 +498,7 @@ theorem content_of_stackRun (raw : Str) : ∀ (ts : List Tok) (pre : Str) (S S' 
         simp [stackStep] at hs; subst hs
         simp only [toksEvents, tokEvent, tagEvent, if_true]
         exact Content.empty _ _ _ _ hrest
+      | bare c => simp [stackStep] at hs; subst hs; exact Content.data _ hrest
       | open_ n as tr =>
         simp only [toksEvents, tokEvent, tagEvent, Bool.false_eq_true, if_false]
         by_cases hhr : lower n = hrTag
